@@ -854,7 +854,7 @@ func main() {
 		}
 	}
 	// a generous limit: under heavy machine load the first fast.New() alone was seen to take many seconds
-	wd := vh.NewWatchdog(rep, 120*time.Second)
+	wd := vh.NewWatchdog(rep, 180*time.Second)
 	idx := 0
 	for _, h := range hists {
 		wd.Beat(h)
